@@ -144,6 +144,41 @@ def discharge(facts, b, blk, kind, ops, t, prefix):
                 lo, up = _len_bounds_at(b, blk, Lshow)
                 if up is not None and st[1] <= en[1] + (lo or 0) and en[1] + up <= n:
                     return "range [%d..%d+L] with L <= %d by dominating guards fits the %d-byte buffer" % (st[1], en[1], up, n)
+        # `base[..E]` / `base[E..]` / `base[E]`-style bounds that are loaded from a field which the function has just set to
+        # min(_, len(base)): the last store to that field that dominates this site clamps it to the length
+        ends = []
+        if idx[0] == "agg" and idx[1] in ("RangeTo", "RangeFrom", "Range", "RangeToInclusive"):
+            ends = [v for k_, v in (idx[3] or {}).items()] if isinstance(idx[3], dict) else []
+        if ends and idx[1] in ("RangeTo", "RangeFrom"):
+            ok_all = True
+            for e_ in ends:
+                e_ = strip_refs(e_)
+                if not (isinstance(e_, tuple) and e_[0] == "field"):
+                    ok_all = False
+                    break
+                fname = e_[3]
+                doms = []
+                for site, st in b.assigns():
+                    pl = st["place"]
+                    if pl["p"] and isinstance(pl["p"][-1], dict) and pl["p"][-1].get("n") == fname and st["rv"]["k"] in ("use", "cast") and b.dominates(site.bb, blk):
+                        doms.append((site, st))
+                others = [site for site, st in b.assigns() if st["place"]["p"] and isinstance(st["place"]["p"][-1], dict) and st["place"]["p"][-1].get("n") == fname and not b.dominates(site.bb, blk)
+                          and blk in b.reachable_from([site.bb])]
+                if not doms or others:
+                    ok_all = False
+                    break
+                last = [d for d in doms if all(b.dominates(o[0].bb, d[0].bb) for o in doms)]
+                if not last:
+                    ok_all = False
+                    break
+                sv = show(strip_refs(expr(b, last[0][1]["rv"]["op"])), 10)
+                bsh = show(base, 10)
+                tail = bsh.rsplit(".", 1)[-1]
+                if not (sv.startswith("min(") and re.search(r"len\(ref\(.*\.%s\)\)\)$" % re.escape(tail), sv)):
+                    ok_all = False
+                    break
+            if ok_all:
+                return "the range bound is loaded from a field that was last set to min(_, len()) of the same collection"
         # i < len(base) dominating
         for T in all_tests(b):
             if T.kind == "cmp" and T.op in ("Lt", "Ge"):
